@@ -504,6 +504,10 @@ class _ChildrenList(_TaskList):
             raise RuntimeError("After not found in list")
         if before is not None and after is not None:
             raise RuntimeError("'Before' and 'After' is not None. Only one parameter must be set")
+        if before is None and after is None:
+            raise RuntimeError("'Before' or 'After' must be not None")
+        if before in tasks or after in tasks:
+            raise RuntimeError("Can't move task before or after itself")
 
         for task in tasks:
             self._list.remove(task)
